@@ -7,10 +7,10 @@ sys.path.insert(0, os.path.dirname(os.path.dirname(os.path.abspath(__file__))))
 from vf import evidence  # noqa: E402
 
 PLAN = {
-    "C01": ["serverconn", "router", "tlspump"],
+    "C01": ["serverconn", "router", "tlspump", "logfault"],
     "C04": ["serverconn", "chain"],
     "C05": ["c05", "chain", "assembly"],
-    "C06": ["tlspump", "live"],
+    "C06": ["tlspump", "live", "logfault"],
     "C07": ["serverconn", "tlspump"],
     "C15": ["serverconn", "tlspump", "live"],
     "C11": ["clientconn", "c03"],
